@@ -27,7 +27,7 @@
 From Coq Require Import Reals Lra Lia List Arith ZArith Bool Floats Psatz.
 From Flocq Require Import Core Plus_error BinarySingleNaN.
 From Flocq Require IEEE754.PrimFloat.
-From SK Require Import Gen.KernelsR Proofs.RealLib Proofs.CostKernels Proofs.FloatError
+From SK Require Import Gen.KernelsR Proofs.RealLib Proofs.CostKernels Proofs.ScoreKernels Proofs.FloatError
   Check.FloatKernelCheck Check.FloatKernelCheck2 Proofs.FloatRefine.
 Import ListNotations.
 
@@ -328,10 +328,14 @@ Section Abstract2.
   Definition cusum_bw (s k e : nat) : R := sqrt (INR (e - k) / INR ((e - s) * (k - s))).
   Definition cusum_aw (s k e : nat) : R := sqrt (INR (k - s) / INR ((e - s) * (e - k))).
 
-  Lemma cusum_score_R_weights S1 s k e :
+  (** through the normal form [cusum_form] of Proofs/ScoreKernels.v, which does not depend on how the generated kernel writes the total length *)
+  Lemma cusum_score_R_weights S1 s k e : (s < k)%nat -> (k < e)%nat ->
     cusum_score_R S1 s k e
     = Rabs (cusum_bw s k e * (S1 k - S1 s) - cusum_aw s k e * (S1 e - S1 k)).
-  Proof. unfold cusum_score_R, cusum_bw, cusum_aw. reflexivity. Qed.
+  Proof.
+    intros Hsk Hke. rewrite (ScoreKernels.cusum_form S1 s k e Hsk Hke). unfold cusum_bw, cusum_aw.
+    rewrite !mult_INR. rewrite (ScoreKernels.len_split s k e) by lia. reflexivity.
+  Qed.
 
   (** the score, in exactly the operation order of [cusum_F]; every operation rounded
       (the integer products (e - s) * (k - s), (e - s) * (e - k) are exact; [abs] is exact) *)
@@ -359,7 +363,7 @@ Section Abstract2.
   Proof.
     intros Hsk Hke Hu.
     assert (Hsk' : (s <= k)%nat) by lia. assert (Hke' : (k <= e)%nat) by lia.
-    rewrite cusum_score_R_weights.
+    rewrite (cusum_score_R_weights _ s k e Hsk Hke).
     rewrite (prefix_diff l s k Hsk'), (prefix_diff l k e Hke').
     set (Bf := sumR (slice s k l)). set (Af := sumR (slice k e l)).
     set (M1 := sumR (map Rabs (firstn e l))).
